@@ -287,6 +287,22 @@ N(x + 1) :- N(x), x < 40;
 Top(m? Max= x) distinct :- N(x);
 Cnt(c? += 1) distinct :- N(x);
 ''', ['Start', 'N', 'Top', 'Cnt']),
+  'two_deep_rings': ('''@Engine("sqlite");
+@Recursive(A, 32);
+A() = 0;
+B() = A() + 1;
+C() = B() + 1;
+A() = C() + 1;
+@Recursive(P, 32);
+P() = 0;
+Q() = P() + 1;
+S() = Q() + 1;
+P() = S() + 1;
+@OrderBy(Test, "col0");
+Test("A") Max= A();
+Test("P") Max= P();
+Only(x) :- x == S();
+''', ['Test', 'Only', 'C']),
   'deep_mutual': ('''@Engine("sqlite");
 @Recursive(Ev, 22);
 E(0, 1); E(1, 2); E(2, 3); E(3, 4); E(4, 5); E(5, 6);
@@ -404,6 +420,12 @@ def work_compiled(task):
       for itn, it in e.iterations.items():
         iters[itn] = dict(predicates=list(it['predicates']), repetitions=it['repetitions'], stop_signal=None, mode=it.get('mode'))
     req = {a: {r for r in rs if r in req} for a, rs in req.items()}
+    # I6 (closure): a plan that contains one member of an iteration contains all of them (otherwise the repetition cannot be performed)
+    for e in execs:
+      for itn, it in e.iterations.items():
+        present = [m for m in it['predicates'] if m in e.table_to_export_map]
+        if present and len(present) != len(it['predicates']):
+          viol('I6-iteration-not-closed', 'plan for %s contains members %s of iteration %s but not %s' % (e.main_predicate, present, itn, [m for m in it['predicates'] if m not in present]), subset)
     for sig, what in check_log(req, iters, log, None):
       viol(sig, what + ' log=%s' % log, subset)
     # ... and I1 again with dependencies re-derived from the SQL text alone: no statement reads a table that no
